@@ -5,7 +5,7 @@ import ast
 from typing import Dict, List, Optional, Set, Tuple
 
 from ..collect import Path, callee_is, run_paths
-from ..common import calls_in, construct, where
+from ..common import defs_of, nested_fn, passed_as_argument, calls_in, construct, where
 from ..flow import ANY_BASE, ANY_EXC, NONE, Value, contains, show, subterms
 from ..loader import AnalysisError, ClassInfo, FuncInfo, Program, walk_shallow
 from ..report import Report
@@ -107,7 +107,7 @@ def run(p: Program, rep: Report, tier: str) -> None:
         cls = p.cls(cfq)
         fn = cls.methods.get(mname)
         if fn is not None and nested:
-            fn = fn.nested.get(nested)
+            fn = nested_fn(fn, nested, passed_as_argument(fn))
         if fn is None:
             raise AnalysisError(f"{cfq}.{mname}{'.' + nested if nested else ''} vanished")
         rep.analysed(fn.fq)
@@ -152,7 +152,7 @@ def run(p: Program, rep: Report, tier: str) -> None:
     for side in ("wsgi", "asgi"):
         cls = p.cls(f"baize.{side}.responses:SendEventResponse")
         rs = cls.methods["render_stream"]
-        push = rs.nested.get("push")
+        push = nested_fn(rs, "push", passed_as_argument(rs))
         if push is None:
             raise AnalysisError(f"{side} render_stream.push vanished")
         qdefs = [n for n in walk_shallow(rs.node) if isinstance(n, (ast.Assign, ast.AnnAssign)) and isinstance(n.value, ast.Call) and ast.unparse(n.value.func) in ("queue.Queue", "asyncio.Queue", "queue.LifoQueue", "queue.PriorityQueue", "queue.SimpleQueue", "asyncio.LifoQueue", "asyncio.PriorityQueue")]
@@ -195,6 +195,10 @@ def run(p: Program, rep: Report, tier: str) -> None:
                         cancels_before = [c_ for c_ in calls_in(rs, deep=True) if isinstance(c_.func, ast.Attribute) and c_.func.attr == "cancel" and isinstance(c_.func.value, ast.Name) and c_.func.value.id in hn and c_.lineno <= n.lineno]
                         cancel_vars = {tt.id for a_ in ast.walk(rs.node) if isinstance(a_, ast.Assign) and any(c_ is a_.value for c_ in cancels_before) for tt in a_.targets if isinstance(tt, ast.Name)}
                         in_test = any(isinstance(x, ast.Name) and x.id in cancel_vars for x in ast.walk(n.test)) or any(c_ in list(ast.walk(n.test)) for c_ in cancels_before)
+                        if not in_test:
+                            # ... or the whole wait sits under `if not <cancel result>:`
+                            from ..common import norm_guards as _ng0
+                            in_test = any(pol is False and ((isinstance(t_, ast.Name) and t_.id in cancel_vars) or any(c_ is t_ for c_ in cancels_before)) for t_, pol in _ng0(n, rs.node))
                         if cancels_before and in_test:
                             rep.ok("R6.3", "wsgi: the wait for the relay is skipped when cancel() removed a relay that had not started (pool saturated)")
                         else:
@@ -216,8 +220,11 @@ def run(p: Program, rep: Report, tier: str) -> None:
             ok = False
             for j in joins:
                 from ..common import norm_guards as _ng
-                if any(ast.unparse(t_).endswith(".cancel()") and pol is False for t_, pol in _ng(j, rs.node)):
-                    ok = True
+                for t_, pol in _ng(j, rs.node):
+                    # the guard is the cancel() call itself or a local that only ever holds its result
+                    ds_ = defs_of(rs, t_) if isinstance(t_, ast.Name) else [t_]
+                    if pol is False and ds_ and all(ast.unparse(d_).endswith(".cancel()") for d_ in ds_):
+                        ok = True
             if joins and ok:
                 rep.ok("R6.3", "asgi: the relay task's outcome is read only after cancel() returned False (task already finished; a pending task is cancelled, which interrupts a blocked put)")
             elif joins:
